@@ -160,19 +160,33 @@ type StopCase struct {
 	Padding  int    `json:"padding"`  // extra cheap statements per iteration (shifts the phase of the 1000-instruction window)
 	Buffered bool   `json:"buffered"` // Config.Output is a bufio.Writer
 	How      string `json:"how"`      // cancel | deadline (the context expires instead of being cancelled)
+	After    string `json:"after,omitempty"` // what the program does right after the cancelling tick: "" (goes on), or a run-time error of its own (div | regex | field | printf)
 }
 
 var templates = []string{"while", "nested-calls", "recursion", "for-in", "main-loop", "pattern-function", "end-block", "for-in-in-function", "do-while-in-rule"}
 
 func genStop(t *rapid.T) StopCase {
 	return StopCase{Template: rapid.SampledFrom(templates).Draw(t, "template"), Depth: rapid.IntRange(1, 50).Draw(t, "depth"), Keys: rapid.IntRange(1, 3000).Draw(t, "keys"),
-		CancelAt: rapid.IntRange(1, 2500).Draw(t, "cancelat"), Padding: rapid.IntRange(0, 7).Draw(t, "padding"), Buffered: rapid.Bool().Draw(t, "buffered"), How: rapid.SampledFrom([]string{"cancel", "cancel", "deadline"}).Draw(t, "how")}
+		CancelAt: rapid.IntRange(1, 2500).Draw(t, "cancelat"), Padding: rapid.IntRange(0, 7).Draw(t, "padding"), Buffered: rapid.Bool().Draw(t, "buffered"), How: rapid.SampledFrom([]string{"cancel", "cancel", "deadline"}).Draw(t, "how"),
+		After: rapid.SampledFrom([]string{"", "", "", "div", "regex", "field", "printf"}).Draw(t, "after")}
+}
+
+// a run-time error of the program's own, raised within a few instructions of the cancelling tick: the context is
+// done by then, so the call still has to return the context's error
+var afterStmt = map[string]string{
+	"div":    "z_ = 1 / zero_",
+	"regex":  "z_ = (\"x\" ~ (\"(\" zero_))",
+	"field":  "$(1000001 + zero_) = 1",
+	"printf": "printf \"%d %d\\n\", 1",
 }
 
 func pad(n int) string { return strings.Repeat("pad_++; ", n) }
 
 func buildStop(c StopCase) (src string, input string) {
 	body := fmt.Sprintf("print \"t\" (++n_); %stick()", pad(c.Padding))
+	if c.After != "" {
+		body += fmt.Sprintf("; if (n_ >= %d) %s", c.CancelAt, afterStmt[c.After])
+	}
 	switch c.Template {
 	case "while":
 		src = "BEGIN { while (1) { " + body + " } }"
@@ -263,7 +277,7 @@ func runStop(x *h.Ctx, c StopCase) string {
 	}
 	cancel()
 	_ = status
-	describe := fmt.Sprintf("template=%s depth=%d keys=%d cancel_at=%d padding=%d buffered=%v how=%s\nprogram:\n%s", c.Template, c.Depth, c.Keys, c.CancelAt, c.Padding, c.Buffered, c.How, src)
+	describe := fmt.Sprintf("template=%s depth=%d keys=%d cancel_at=%d padding=%d buffered=%v how=%s after=%q\nprogram:\n%s", c.Template, c.Depth, c.Keys, c.CancelAt, c.Padding, c.Buffered, c.How, c.After, src)
 	if ticksAtCancel < 0 {
 		// the program ended before the cancelling tick (only possible for input-bound templates)
 		if runErr != nil {
@@ -307,6 +321,9 @@ func runStop(x *h.Ctx, c StopCase) string {
 	}
 	x.Class("template-" + c.Template)
 	x.Class("how-" + c.How)
+	if c.After != "" {
+		x.Class("own-error-after-cancel")
+	}
 	if c.Template != "while" {
 		x.Nontrivial("")
 	}
@@ -363,7 +380,19 @@ func instructionsPerIteration(prog *parser.Program) int {
 					n := 0
 					for _, in := range b {
 						if in.addr > b[j].addr && in.addr < end {
-							n++
+							skipped := false
+							for _, jn := range b { // not counted: what a forward jump inside the body can skip
+								if jn.addr > b[j].addr && jn.addr < end && strings.HasPrefix(jn.text, "Jump") {
+									jf := strings.Fields(jn.text)
+									var jt int
+									if _, err := fmt.Sscanf(jf[len(jf)-1], "0x%x", &jt); err == nil && jt > jn.addr && in.addr > jn.addr && in.addr < jt {
+										skipped = true
+									}
+								}
+							}
+							if !skipped {
+								n++
+							}
 						}
 					}
 					if n > best {
@@ -384,9 +413,23 @@ func instructionsPerIteration(prog *parser.Program) int {
 				continue
 			}
 			if target <= b[ti].addr {
+				// a lower bound: instructions that a forward jump inside the loop can skip are not counted
+				skippable := func(addr int) bool {
+					for _, jn := range b {
+						if jn.addr < target || jn.addr >= b[j].addr || !strings.HasPrefix(jn.text, "Jump") {
+							continue
+						}
+						jf := strings.Fields(jn.text)
+						var jt int
+						if _, err := fmt.Sscanf(jf[len(jf)-1], "0x%x", &jt); err == nil && jt > jn.addr && addr > jn.addr && addr < jt {
+							return true
+						}
+					}
+					return false
+				}
 				n := 0
 				for _, in := range b {
-					if in.addr >= target && in.addr <= b[j].addr {
+					if in.addr >= target && in.addr <= b[j].addr && !skippable(in.addr) {
 						n++
 					}
 				}
